@@ -4,6 +4,7 @@ package main
 
 import (
 	"fmt"
+	"os"
 	"strings"
 	"go/constant"
 	"go/token"
@@ -83,6 +84,9 @@ func (x *Exec) step(st *State, fr *Frame, ins ssa.Instruction) ([]*State, bool) 
 		xv := x.val(st, fr, ins.X)
 		switch ins.Op {
 		case token.MUL: // load
+			if xv.T == nil && xv.Loc == nil && os.Getenv("GOCV_TRACE") != "" {
+				fmt.Fprintf(os.Stderr, "TRACE load of empty value: %s = %s in %s\n", ins.Name(), ins.String(), fr.fn.Name())
+			}
 			l := x.loc(st, xv, ins.X.Type())
 			if l.kind == locHeap || l.kind == locElem {
 				// nil dereference is a runtime panic; normal paths assume non-nil
